@@ -28,8 +28,9 @@
          protocol error or does not yield the effective configuration of the
          last admissible load
       6  the implementation panicked
-    Tag 11 = the same inside known-finding class 1 (the case contains an
-    in-place edit of a loaded message at or before the step). *)
+    No open known-finding class (KF-C17-1, configuration stored by reference,
+    was fixed by b7e5099: an in-place edit of a loaded message must now leave
+    Current() alone, and failing that is an ordinary tag 3). *)
 From Gnmi Require Import Base.Prelude TargetCfg.TargetCfgModel.
 Open Scope Z_scope.
 
@@ -227,28 +228,18 @@ Definition kstep (st : option cfg) (rep : option ceff) (o : op) (r : obs)
   | _, _ => ([6%N], st, rep)      (* malformed observation *)
   end.
 
-(** ** known findings (narrow classes; see known_findings.d/C17.json)
-
-    KF 1: the configuration is stored by reference; a case is in the class
-    from its first in-place edit on. *)
-Definition is_mutate (o : op) : bool := match o with OMutate _ => true | _ => false end.
-
-Definition retag (in_class : bool) (t : N) : N :=
-  if in_class then 11%N else t.
-
 (** ** verdicts *)
 
 Fixpoint check_from (i : nat) (ms : option cfg) (st : option cfg) (rep : option ceff)
-    (mut : bool) (c : list (op * obs)) : list (nat * N) :=
+    (c : list (op * obs)) : list (nat * N) :=
   match c with
   | [] => []
   | (o, r) :: c' =>
       let '(ms', rm) := mstep ms o in
       let '(tags, st', rep') := kstep st rep o r in
-      let mut' := mut || is_mutate o in
       (if obs_eqb r rm then [] else [(i, 1%N)])
-      ++ map (fun t => (i, retag mut' t)) tags
-      ++ check_from (S i) ms' st' rep' mut' c'
+      ++ map (fun t => (i, t)) tags
+      ++ check_from (S i) ms' st' rep' c'
   end.
 
 Definition m_new := @new_config_with_base string string string "" "".
@@ -269,7 +260,7 @@ Definition check_case (k : case) : list (nat * N) :=
       (if negb (k_base_err k) && ocfg_eqb (k_cur0 k) (m_current ms) then [] else [(0%nat, 1%N)])
       ++ map (fun t => (0%nat, t)) ktags
       ++ (if k_base_err k then []
-          else check_from 1 ms spec_st (Some (eff_of spec_st)) false (k_steps k))
+          else check_from 1 ms spec_st (Some (eff_of spec_st)) (k_steps k))
   | _ =>
       (if k_base_err k then [] else [(0%nat, 1%N)])
       ++ map (fun t => (0%nat, t)) ktags
